@@ -133,6 +133,21 @@ Theorem C10_hashws_digest_injective : forall (h : str -> str) (a b : str),
 Proof. exact hashws_combos_injective. Qed.
 Print Assumptions C10_hashws_digest_injective.
 
+(** ** submission (the "submit" stream of the check)
+    Modelling fact: [_StepRecord._execute] passes the workspace as [cwd] to
+    [adapter.submit]; each back-end must make it the working directory of the
+    job it starts (the [cwd=] keyword of the launched process, or the [-D] /
+    [--chdir] / [-cwd] option of sbatch / bsub, or [jobspec.cwd] for Flux) and
+    stdout / stderr files are plain names relative to it.  [submit_ok] is the
+    monitor evaluated on what the REAL adapters hand to the (stubbed) process
+    layer / fake flux module for steps that vary every optional run key; of
+    the model it holds for every workspace string: *)
+Theorem C10_submit_in_workspace : forall (ws : str) (names : list str),
+  Forall (fun n => ~ In SLASH n /\ n <> [] /\ n <> dot /\ n <> dotdot) names ->
+  submit_ok (model_sobs ws names) = true.
+Proof. exact submit_model_ok. Qed.
+Print Assumptions C10_submit_in_workspace.
+
 (** ** the monitor *)
 
 (** Under H10 the model satisfies the monitor (all five conjuncts). *)
